@@ -48,6 +48,14 @@ def cases(tier, seed):
             for wl in itertools.permutations(range(total), k):
                 if k <= 2 or rng.random() < (0.15 if tier == "quick" else 1.0):
                     yield {"kind": "qft", "nq": total, "wl": list(wl)}
+    # longer registers (every controlled-phase distance up to 9): identity, permuted and partial lists on wider circuits
+    for total in range(6, 11 if tier == "thorough" else 10):
+        yield {"kind": "qft", "nq": total, "wl": list(range(total))}
+        wl = list(range(total))
+        rng.shuffle(wl)
+        yield {"kind": "qft", "nq": total, "wl": wl}
+        if total >= 7:
+            yield {"kind": "qft", "nq": total, "wl": wl[: total - 1]}
 
 
 REMID_CORPUS = [
